@@ -144,6 +144,11 @@ type run struct {
 	loose    bool           // messages may legitimately leave the queue (drop_oldest, ack): observe what is there
 	keyTag   string         // appended to violation keys
 	ownStore bool           // the harness opens the store (push flows; memory pressure limits)
+
+	// configuration histories (change_test.go)
+	chgDone map[string]int // route kind -> steps of its history applied so far
+	chgText map[string]int // route kind -> the step whose configuration the file has for the route
+	onDisk  bool           // a later boot (close + reopen) reads the file as the history left it instead of writing it
 }
 
 func (x *run) infra(format string, a ...any) {
@@ -180,6 +185,9 @@ func describe(c mcase, body []byte) string {
 		if c.Cred != "" {
 			d += " credentials=" + c.Cred
 		}
+	}
+	if k := chgOf(c.Route); k != nil {
+		d += fmt.Sprintf(" (in force after %d steps of the route's configuration history: %s)", stepsBefore(c.Route), k.describe())
 	}
 	return d
 }
@@ -275,8 +283,11 @@ func (x *run) openStore() bool {
 }
 
 func (x *run) boot() bool {
-	layerRoutes, ingressExtra := x.layerDSL()
-	a, err := app.VerifBoot(app.VerifBootOptions{Dir: x.dir, ConfigText: dsl(x.slot, x.backend, x.q.dsl()+layerRoutes, ingressExtra), Store: x.store})
+	text := x.configText()
+	if x.onDisk {
+		text = "" // close + reopen after a configuration history: the file on disk is the configuration (the last reload's, or what the application wrote)
+	}
+	a, err := app.VerifBoot(app.VerifBootOptions{Dir: x.dir, ConfigText: text, Store: x.store})
 	if err != nil {
 		x.infra("boot: %v", err)
 		return false
@@ -303,7 +314,8 @@ func (x *run) boot() bool {
 		return false
 	}
 	// the auth service: in memory, records what it receives, answers as the route's layer says (layers_test.go)
-	a.VerifForwardAuthClient(&http.Client{Transport: rtFunc(x.authService)})
+	a.VerifForwardAuthClient(x.authClient())
+	x.onDisk = x.hasChange()
 	if x.flow == flowPush {
 		return true
 	}
@@ -319,6 +331,8 @@ func (x *run) boot() bool {
 	x.in.worker = workerapipb.NewWorkerServiceClient(conn)
 	return true
 }
+
+func (x *run) authClient() *http.Client { return &http.Client{Transport: rtFunc(x.authService)} }
 
 func (x *run) shutdown() {
 	if x.in != nil {
@@ -424,6 +438,10 @@ func (x *run) routeOf(c mcase) string {
 
 func (x *run) enqueueAll() bool {
 	for i, c := range x.cases {
+		// a route with a configuration history: bring it to the configuration this request is meant for (change_test.go)
+		if !x.advance(c.Route, stepsBefore(c.Route)) {
+			return false
+		}
 		body := x.bodies[i]
 		want := refAccept(c, len(body))
 		var code int
@@ -504,7 +522,7 @@ func (x *run) enqueueAll() bool {
 		}
 		x.note(i, "enqueue", fmt.Sprintf("status=%d", code))
 	}
-	return true
+	return x.finishHistories()
 }
 
 // publish sends one admin publish request with the given cases as items.
@@ -558,7 +576,11 @@ func (x *run) note(i int, via, phase string) {
 	if !x.acc[i] {
 		verdict = "rej"
 	}
-	x.res.distinct[strings.Join([]string{c.In, c.Route, c.Frame, via, phase, x.backend, bodyClass(c, x.bodies[i]), strings.Join(set, "."), verdict}, "|")] = struct{}{}
+	route := c.Route
+	if k := chgOf(route); k != nil { // a configuration history: its class (dimension changed, number of steps) and the position in it
+		route = fmt.Sprintf("C-%s@%d", k.class, stepsBefore(route))
+	}
+	x.res.distinct[strings.Join([]string{c.In, route, c.Frame, via, phase, x.backend, bodyClass(c, x.bodies[i]), strings.Join(set, "."), verdict}, "|")] = struct{}{}
 	if i == len(x.cases)-1 && len(x.res.samples) < 2 && via != "enqueue" {
 		x.res.samples = append(x.res.samples, map[string]any{"backend": x.backend, "flow": x.flow, "via": via, "phase": phase,
 			"in": c.In, "route": x.routeOf(c), "frame": c.Frame, "sent_headers": x.lines[i], "body": short(x.bodies[i]),
@@ -741,9 +763,10 @@ func (x *run) usedRoutes() []string {
 	seen := map[string]bool{}
 	var out []string
 	for _, c := range x.cases {
-		if !seen[c.Route] {
-			seen[c.Route] = true
-			out = append(out, c.Route)
+		rk := chgBase(c.Route) // the names of one route under the steps of its configuration history are one route
+		if !seen[rk] {
+			seen[rk] = true
+			out = append(out, rk)
 		}
 	}
 	return out
@@ -782,7 +805,7 @@ func (x *run) checkItems(items []item, via, phase, routeKind string) bool {
 		if x.loose && seen[i] <= 1 {
 			continue
 		}
-		if c.Route == routeKind && x.acc[i] && seen[i] != 1 {
+		if chgBase(c.Route) == routeKind && x.acc[i] && seen[i] != 1 {
 			x.infra("%s %s: accepted case %d seen %d times (%s)", via, phase, i, seen[i], describe(c, x.bodies[i]))
 			return false
 		}
